@@ -834,10 +834,17 @@ pub fn dst_addr(class: u64, cfg: &Cfg, to: usize) -> [u8; 16] {
         5 => Ip::v6([0xff02, 0, 0, 0, 0, 0, 0, 2]).bytes().try_into().unwrap(),
         6 => Ip::v6([0xff05, 0, 0, 0, 0, 0, 1, 3]).bytes().try_into().unwrap(),
         7 => Ip::v6([0xff0e, 0, 0, 0, 0, 0x12, 0x3456, 0x789a]).bytes().try_into().unwrap(),
-        _ => Ip::v6([0xff3e, 0x40, 0xfd00, 0, 0, 0, 0x1234, 0x5678]).bytes().try_into().unwrap(),
+        8 => Ip::v6([0xff3e, 0x40, 0xfd00, 0, 0, 0, 0x1234, 0x5678]).bytes().try_into().unwrap(),
+        // boundaries between the RFC 6282 multicast forms (8 / 32 / 48 bit / in line): one
+        // non-zero octet decides which form is still legal (added after the classes above)
+        9 => Ip::v6([0xff15, 0, 0, 0, 0, 0, 0x8000, 0x0001]).bytes().try_into().unwrap(), // octet 12: 48-bit form needed
+        10 => Ip::v6([0xff02, 0, 0, 0, 0, 0, 0, 0x0100]).bytes().try_into().unwrap(), // octet 14: ff02 but not the 8-bit form
+        11 => Ip::v6([0xff03, 0, 0, 0, 0, 0, 0, 0x0001]).bytes().try_into().unwrap(), // scope 3: not the 8-bit form
+        12 => Ip::v6([0xff0e, 0, 0, 0, 0, 0x0001, 0, 0]).bytes().try_into().unwrap(), // octet 11 only: 48-bit form
+        _ => Ip::v6([0xff0e, 0, 0, 0, 0, 0x0100, 0, 0x0001]).bytes().try_into().unwrap(), // octet 10: in line only
     }
 }
-pub const DST_CLASSES: u64 = 8;
+pub const DST_CLASSES: u64 = 13;
 
 /// Unicast is only possible towards a node with an extended address (neighbour
 /// discovery cannot carry short addresses in this stack).
